@@ -14,3 +14,7 @@ import EpModel.Driver.Set
 import EpModel.Driver.Build
 import EpModel.Driver.Dec
 import EpModel.Props.C09
+import EpModel.Model.BitFields
+import EpModel.Spec.BitLayout
+import EpModel.Lemmas.BitFields
+import EpModel.Props.C15
